@@ -8,6 +8,7 @@ from typing import List, Optional, Tuple
 
 from harness.lib.core import VERIF, Ctx, lean_lock, run_driver, shrink_ops
 from harness.extract import session as x_session
+from harness.extract import session_tr as x_session_tr
 from harness.rigs import session as rig
 
 MANIFEST = {
@@ -62,7 +63,8 @@ MANIFEST = {
 }
 MODULES = ["PrimaiteModel.Props.C16", "PrimaiteModel.Props.C16Conn", "PrimaiteModel.Props.C16Transport",
            "PrimaiteModel.Props.C16Timeout", "PrimaiteModel.Props.C16Admin", "PrimaiteModel.Props.C16Local",
-           "PrimaiteModel.Props.C16Chain", "PrimaiteModel.Props.C16Ends", "PrimaiteModel.Props.C16Handle", "PrimaiteModel.Props.C16Logoff"]
+           "PrimaiteModel.Props.C16Chain", "PrimaiteModel.Props.C16Ends", "PrimaiteModel.Props.C16Handle", "PrimaiteModel.Props.C16Logoff",
+           "PrimaiteModel.Props.C16Tr"]
 EXE = "drv_c16"
 
 
@@ -199,6 +201,7 @@ def _run_impl_all(case_list: List[dict]):
 def run(ctx: Ctx):
     with lean_lock():
         ctx.extract(x_session.GEN_NAME, x_session.emit)
+        ctx.extract(x_session_tr.GEN_NAME, x_session_tr.emit)
         ctx.prove(MODULES, exes=[EXE], clean=False, leanchecker=ctx.thorough)
     ctx.cov["rule"] = ("case = (node count, durations, session limit, time-outs, operation sequence); every answer and the complete "
                        "session state (power, NIC, service states, users, local session, remote sessions, terminal connections, files) "
